@@ -219,7 +219,7 @@ func TestC04RoundTrip(t *testing.T) {
 // agrees with the reference decoder.
 func TestC04ArbitraryPayloads(t *testing.T) {
 	rec := evid.New(t, "C04", "arbitrary payloads of 0..255 bytes (all-zero, all-FF, random, boundary lengths around base/extended size) for every type and both versions, carved from a sentinel backing array: Read returns a value equal to the reference decoding or an error exactly when the reference refuses (v1 wrong length); no panic; buffer untouched; deterministic; non-trivial = length differs from the full size; distinct by (type, payload hash, version)")
-	rec.Require("len0", "len255", "shorter-than-base", "between-base-and-ext", "longer-than-ext")
+	rec.Require("len0", "len255", "shorter-than-base", "between-base-and-ext", "longer-than-ext", "same-buffer-refilled-between-calls")
 	tys := types(t)
 	evid.Check(t, rec, len(tys)*evid.N(120, 400), func(t *rapid.T) {
 		ti := tys[rapid.IntRange(0, len(tys)-1).Draw(t, "type")]
@@ -280,6 +280,33 @@ func TestC04ArbitraryPayloads(t *testing.T) {
 			}
 		}
 		var cls []string
+		// a receive buffer that is refilled for every packet: the same slice (same start, same length) holds other
+		// content at the next call, and the decoder says what the buffer holds now
+		if n > 0 && rapid.IntRange(0, 2).Draw(t, "refilled_buffer") == 0 {
+			buf := make([]byte, n, n+rapid.IntRange(0, 8).Draw(t, "refill_cap"))
+			raw := &message.MessageRaw{ID: ti.msg.GetID(), Payload: buf}
+			copy(buf, p)
+			for k := 0; k < rapid.IntRange(2, 4).Draw(t, "refills"); k++ {
+				if k > 0 {
+					if rapid.Bool().Draw(t, "one_bit") {
+						i := rapid.IntRange(0, n-1).Draw(t, "refill_byte")
+						buf[i] ^= 1 << uint(rapid.IntRange(0, 7).Draw(t, "refill_bit"))
+					} else {
+						copy(buf, gen.Bytes(t, n, "refill"))
+					}
+					if rapid.Bool().Draw(t, "new_raw") {
+						raw = &message.MessageRaw{ID: ti.msg.GetID(), Payload: buf}
+					}
+				}
+				now := append([]byte(nil), buf...)
+				g, e := safeRead(ti.rw, raw, v2)
+				w, we := ti.lay.Decode(now, v2)
+				if (e != nil) != (we != nil) || (e == nil && !ref.EqualMsg(g, w)) {
+					fail("the caller's buffer (the same %d bytes of memory at every call) was filled with %x for call %d: decoded as\n %+v (err %v), the buffer says\n %+v (err %v)", n, now, k+1, g, e, w, we)
+				}
+			}
+			cls = append(cls, "same-buffer-refilled-between-calls")
+		}
 		switch {
 		case n == 0:
 			cls = append(cls, "len0")
